@@ -491,7 +491,7 @@ def attributable(prop, script, diffs):
 
 # --------------------------------------------------------------------------- main check
 
-DET_FAMILIES = {"table": 44928, "exh": 1213568, "opx": 885120}   # sizes of the deterministic enumerations (gen prints them)
+DET_FAMILIES = {"table": 45018, "exh": 1213568, "opx": 885120}   # sizes of the deterministic enumerations (gen prints them)
 DET_STRIDE = 104729                                                # prime, coprime to all three sizes
 
 
